@@ -25,11 +25,16 @@ KEY_KINDS = ["f", "i", "b", "s", "s", "u", "d", "t", "td", "o", "oi", "ob"]
 def _plan(draw, max_rows):
     n = draw(gen.nrows(max_rows))
     nk = draw(st.sampled_from([1, 1, 2, 2, 3]))
+    big = draw(st.integers(0, 9)) == 0
+    if big:
+        # > 16 rows grouped by one key without missing cells: where an unstable sort inside grouping shows
+        n = draw(st.integers(17, 40))
+        nk = 1
     cols = []
     for j in range(nk):
         kind = draw(st.sampled_from(KEY_KINDS))
-        mode = draw(st.sampled_from(["tight", "tight", "tight", "pool"]))
-        cols.append({"name": f"g{j}", "kind": kind, "vals": draw(gen.values(kind, n, mode=mode))})
+        mode = "tight" if big else draw(st.sampled_from(["tight", "tight", "tight", "pool"]))
+        cols.append({"name": f"g{j}", "kind": kind, "vals": draw(gen.values(kind, n, mode=mode, na="none" if big else None))})
     cols.append({"name": "xi", "kind": "i", "vals": [draw(st.integers(-1000, 1000)) for _ in range(n)]})
     cols.append({"name": "xf", "kind": "f", "vals": [draw(st.sampled_from([gen.NAN, -3.0, -0.0, 0.0, 0.5, 1.0, 2.5, 1e6])) for _ in range(n)]})
     return {"frame": {"n": n, "cols": cols}, "by": [f"g{j}" for j in draw(st.permutations(range(nk)))]}
